@@ -267,14 +267,17 @@ def build_request(unit, inst, contracts):
                 try:
                     if key.isdigit():
                         req.setdefault("proof_expect", {})[key] = sh["stmts"][int(key)]
+                        req.setdefault("proof_expect_len", {})[key] = len(sh["stmts"])
                     elif key.startswith("loop"):
                         j, k = key[4:].split(":")
                         req.setdefault("proof_expect", {})[key] = sh["loops"][int(j)][int(k)]
+                        req.setdefault("proof_expect_len", {})[key] = len(sh["loops"][int(j)])
                 except (IndexError, ValueError, KeyError):
                     pass
             if mode == "slice" and len(req["stmts"]) == 2 and not req["stmts_until"]:
                 try:
                     req["stmts_expect"] = [sh["stmts"][req["stmts"][0]], sh["stmts"][req["stmts"][1] - 1]]
+                    req["stmts_expect_len"] = len(sh["stmts"])
                 except IndexError:
                     pass
         req["_inst"] = dict(inst)
